@@ -12,10 +12,13 @@ Everything the environment or the library decides is an input bit:
 * `noValidate`, `stubFfi` — the command-line flags,
 * `createOk`    — `File::create(out_path)` and `ciborium::into_writer` succeeded (else `.expect` panics).
 
-The two facts the property hinges on — whether `main` negates `validate`'s result and what
-`true` means for `validate` — are *not* written here: they come from `AranyaV.Gen.CliMain`,
-regenerated from the Rust source on every run.  `cliWith` is the model for an arbitrary guard
-polarity, `cli` the instance for the current tree.
+Whether `main` negates `validate`'s result is *not* written here: it comes from
+`AranyaV.Gen.CliMain` (`guardNegated`), regenerated from the Rust source on every run.  What `true`
+means for `validate` (`validateTrueMeansFailed`) is the library's contract — asserted by its own tests
+and checked semantically on every run by the harness (`vparts` requests: the real `validate` on
+modules whose first / a middle / the last label fails while the others pass, and on modules whose
+labels all pass).  `cliWith` is the model for an arbitrary guard polarity, `cli` the instance for the
+current tree.
 -/
 namespace AranyaV.Cli
 
@@ -53,10 +56,20 @@ def cliWith (neg : Bool) (a : Input) : Outcome :=
 /-- the CLI of the current source tree -/
 def cli (a : Input) : Outcome := cliWith Gen.CliMain.guardNegated a
 
+/-- contract of `aranya_policy_compiler::validate::validate`: it returns `true` iff at least one label
+of the module has a trace failure (library tests: `assert!(validate(&m))` for invalid policies,
+`assert!(!validate(&m))` for valid ones).  Tied by the harness, not by source patterns. -/
+def validateTrueMeansFailed : Bool := true
+
+/-- `validate` on a module whose labels have these per-label verdicts (`true` = that label has a trace
+failure): any failing label — first, middle or last — makes the module fail -/
+def validateOfWith (tmf : Bool) (labelFails : List Bool) : Bool := labelFails.any id == tmf
+def validateOf (labelFails : List Bool) : Bool := validateOfWith validateTrueMeansFailed labelFails
+
 /-- the library's verdict "validation failed", given the polarity of `validate`'s return value -/
 def failedWith (tmf : Bool) (a : Input) : Bool := a.validateRet == tmf
 
-def validateFailed (a : Input) : Bool := failedWith Gen.CliMain.validateTrueMeansFailed a
+def validateFailed (a : Input) : Bool := failedWith validateTrueMeansFailed a
 
 def Exit.code : Exit → Nat
   | .success => 0 | .failure => 1 | .crash => 101
